@@ -40,6 +40,9 @@ CHECKS = {
  "C17": dict(level="fault_enumeration", design="§4 C17",
    text="Stream decoder: for small inputs every single cut, every pair of cuts with an interleaved empty read, EOF-with-data and a reader FAILURE at every byte position (whole and 1-byte reads) are enumerated; large inputs crossing the 4096/8192/16384-byte buffers get sampled chunkings. Oracle: encoding/json.Decoder driven by the very same reader: same value sequence, same terminal class, injected error returned by identity, logical progress (InputOffset strictly increases), and values returned earlier do not change after later Decode calls (three decoder configurations incl. CopyString+UseNumber). Stream encoder: Writer failing at every write index, short writes, repeated Encode; bytes must equal Marshal (+newline).",
    technique="fault enumeration over reader cut positions and reader/writer failure positions, with encoding/json.Decoder on the same reader as the runtime oracle"),
+ "C18": dict(level="exploration", design="§4 C18",
+   text="Metamorphic runtime monitoring of the 16 Config switches: for a switch S and a random setting R of the 15 others, the same value/document is run with R and R+S in the same process and the difference must be exactly S's documented effect (EscapeHTML == json.HTMLEscape(out_R); SortMapKeys reorders members only; NoNullSliceOrMap == out_R of the value with nil containers made empty; ValidateString == UTF-8-corrected out_R / decode of the corrected document; EncodeNullForInfOrNan via a sentinel; CompactMarshaler changes no token; marshaler switches inert on marshaler-free types; NoEncoderNewline removes only the stream newline; UseInt64/UseNumber change only interface{} numbers; CopyString/NoValidateJSONSkip inert on valid documents; DisallowUnknownFields agrees with encoding/json on which documents have unknown keys; UseUnicodeErrors inert without lone surrogates and reporting with them; CaseSensitive == encoding/json on the exact-key-filtered document), plus entry-point equivalence (encoder.Encode/EncodeInto/MarshalToString/MarshalIndent/stream encoder vs Froze().Marshal; decoder.Decoder+SetOptions/UnmarshalFromString vs Froze().Unmarshal). Runs in a JIT process and a VM-encoder+optdec process; per-switch 'fired' counters show the switch had something to act on.",
+   technique="metamorphic runtime monitor (single-switch relations with encoding/json post-processors as oracles) + entry-point equivalence, seeded over types/values/documents/other switches"),
  "C19": dict(level="exploration", design="§4 C19",
    text="Seeded differential monitoring of every number conversion route (30+ routes per literal: all integer widths, float32/64, json.Number, interface{} under default/UseNumber/UseInt64, string-tagged fields, integer map keys, ast accessors, Interface, Preorder callbacks) against strconv/encoding/json, with math/big-built exact midpoints; formatting of floats/ints byte-for-byte against encoding/json; all 2^32 float32 patterns in the thorough tier (exhaustive for float32 formatting and shortest-text decoding). jit/optdec/vm/sse configurations each get a share.",
    technique="runtime differential monitor vs strconv/encoding/json; exhaustive float32 bit-pattern sweep (thorough); seeded boundary/midpoint literals"),
